@@ -178,8 +178,11 @@ func runC06(c *Ctx) {
 	rep.Count("cases", int64(len(cases)))
 	var smu sync.Mutex
 	sampled := 0
-	Par(len(cases), func(i int) {
-		cs := cases[i]
+	// thorough: the whole matrix is run several times with different seeds for keys, payload sizes and write plans
+	rounds := c.Q(1, 6)
+	Par(len(cases)*rounds, func(j int) {
+		i := j%len(cases) + (j/len(cases))*1000003
+		cs := cases[j%len(cases)]
 		runC06Case(c, pki, cs, i, func(v interface{}) {
 			smu.Lock()
 			if sampled < 3 {
